@@ -4,7 +4,7 @@
 set -u
 PATCH="$1"; shift
 D=$(mktemp -d /tmp/qvmut.XXXXXX)
-rsync -a --exclude target --exclude .git /repo/ "$D/"
+if [ -n "${BASE:-}" ]; then git -C /repo archive "$BASE" | tar -x -C "$D"; else rsync -a --exclude target --exclude .git /repo/ "$D/"; fi
 if [ "$PATCH" = "-e" ]; then
   SCRIPT="$1"; shift
   (cd "$D" && python3 -c "$SCRIPT") || { echo "edit failed"; rm -rf "$D"; exit 3; }
